@@ -41,20 +41,36 @@ def generate(dst):
     return changes
 
 
-def build(variant, profile):
-    """variant: linux|macos, profile: dev|release -> executable path"""
-    tag = "sim-%s" % variant
-    srcdir = os.path.join(core.BUILD, tag + "-src")
-    with core.Lock(tag):
-        changes = generate(srcdir)
-        cmd = ["cargo", "build", "--offline", "--quiet"] + (["--release"] if profile == "release" else [])
-        extra = {"CARGO_TARGET_DIR": os.path.join(core.BUILD, tag)}
-        if variant == "macos":
-            extra["RUSTFLAGS"] = "--cfg sim_macos"
-        rc, out = core.sh(cmd, cwd=srcdir, env=core.env_offline(extra), timeout=1800)
+EMITTERS = ("amd64", "arm64", "arm")
+
+
+def build(variant, profile, need=EMITTERS):
+    """variant: linux|macos, profile: dev|release -> (executable path, source transformations).
+    `need`: the emitters the scenario drives. The engine is built with all three; if that fails (an emitter's
+    interface to `common` changed) it is rebuilt with only the needed ones, so that e.g. a change to the amd64
+    patcher does not take the AArch64 checks down with it."""
+    def attempt(leave_out):
+        tag = "sim-%s%s" % (variant, "".join("-no" + e for e in leave_out))
+        srcdir = os.path.join(core.BUILD, tag + "-src")
+        with core.Lock(tag):
+            changes = generate(srcdir)
+            cmd = ["cargo", "build", "--offline", "--quiet"] + (["--release"] if profile == "release" else [])
+            extra = {"CARGO_TARGET_DIR": os.path.join(core.BUILD, tag)}
+            flags = (["--cfg sim_macos"] if variant == "macos" else []) + ["--cfg sim_no_" + e for e in leave_out]
+            if flags:
+                extra["RUSTFLAGS"] = " ".join(flags)
+            rc, out = core.sh(cmd, cwd=srcdir, env=core.env_offline(extra), timeout=1800)
+        return rc, out, os.path.join(core.BUILD, tag, "release" if profile == "release" else "debug", "vsim"), changes
+    rc, out, exe, changes = attempt(())
     if rc != 0:
+        leave_out = tuple(e for e in EMITTERS if e not in need)
+        if leave_out:
+            rc2, out2, exe, changes = attempt(leave_out)
+            if rc2 == 0:
+                changes = dict(changes)
+                changes["emitters_left_out_because_they_no_longer_build_against_the_shim"] = list(leave_out)
+                return exe, changes
         raise core.HarnessError("sim engine does not build against the tree under test (emitter interface changed?):\n" + out[-3000:])
-    exe = os.path.join(core.BUILD, tag, "release" if profile == "release" else "debug", "vsim")
     return exe, changes
 
 
